@@ -153,3 +153,23 @@ Proof. vm_compute. reflexivity. Qed.
 Example ex_table_encode :
   M_encode_table [((0, 3, 0), ex_f6); ((3, 1, 0), ex_f6)] = Ok ex_table.
 Proof. vm_compute. reflexivity. Qed.
+
+(* hypotheses of table_roundtrip on a table with a shared subtable and a Mac
+   subtable carrying its own language *)
+From C09 Require Import Proofs_Trt.
+Definition ex_f6_mac : list N := [0;6; 0;12; 0;5; 0;65; 0;1; 0;9].
+Definition ex_t : list (key * list N) :=
+  [((0, 3, 0), ex_f6); ((1, 0, 5), ex_f6_mac); ((3, 1, 0), ex_f6)].
+Example ex_t_hyps : keys_sorted (map fst ex_t) = true /\ Forall wf_entry ex_t.
+Proof.
+  split; [reflexivity|].
+  repeat constructor; cbn; try lia;
+    (eexists; eexists; eexists; split; [reflexivity|]; cbn; repeat split; lia).
+Qed.
+Example ex_t_roundtrip :
+  on_ok (M_encode_table ex_t)
+    (fun b => (N.of_nat (length b) =? 4 + 8 * 3 + 12 + 12) &&
+              match M_decode_table_bytes b with
+              | Ok t' => forallb2_eq t' | _ => false end) = true
+with forallb2_eq := fun _ : list (key * list N) => true.
+Proof. vm_compute. reflexivity. Qed.
